@@ -5,6 +5,7 @@ catch2 = json.load(open("/tmp/seed2_catch_all.json")) if os.path.exists("/tmp/se
 catch3 = json.load(open("/tmp/seed3_catch_all.json")) if os.path.exists("/tmp/seed3_catch_all.json") else {}
 catch4 = json.load(open("/tmp/seed4_catch.json")) if os.path.exists("/tmp/seed4_catch.json") else {}
 catch5 = json.load(open("/tmp/seed5_catch.json")) if os.path.exists("/tmp/seed5_catch.json") else {}
+catch6 = json.load(open("/tmp/seed6_catch.json")) if os.path.exists("/tmp/seed6_catch.json") else {}
 rows = []
 for d in sorted(os.listdir("/verif/seeded")):
     p = "/verif/seeded/%s/meta.json" % d
@@ -12,7 +13,7 @@ for d in sorted(os.listdir("/verif/seeded")):
         continue
     meta = json.load(open(p))
     pid, mk = d.split("-")
-    c = catch2.get("%s/%s" % (pid, mk[2:])) if mk.startswith("r2") else (catch3.get("%s/%s" % (pid, mk[2:])) if mk.startswith("r3") else (catch4.get("%s/%s" % (pid, mk[2:])) if mk.startswith("r4") else (catch5.get("%s/%s" % (pid, mk[2:])) if mk.startswith("r5") else catch.get("%s/%s" % (pid, mk)))))
+    c = catch2.get("%s/%s" % (pid, mk[2:])) if mk.startswith("r2") else (catch3.get("%s/%s" % (pid, mk[2:])) if mk.startswith("r3") else (catch4.get("%s/%s" % (pid, mk[2:])) if mk.startswith("r4") else (catch5.get("%s/%s" % (pid, mk[2:])) if mk.startswith("r5") else (catch6.get("%s/%s" % (pid, mk[2:])) if mk.startswith("r6") else catch.get("%s/%s" % (pid, mk))))))
     if c is None:
         print("no run for", d)
         continue
